@@ -10,22 +10,25 @@ from common import ModelRun, model_classes, cx, pipeline_guard, chi_floor
 from drive import Result
 
 RULE = ("Hypothesis generates models with N<=4 modes (quick; <=5 thorough) incl. non-interacting, atomic-limit and particle-hole "
-        "symmetric families, beta in [0.1,100], an index quadruple (equal and distinct indices) and Matsubara triples from a mixture "
+        "symmetric and wide-scale (U up to 1e4, t down to 1e-4, fields down to 1e-13) families, beta in [0.1,100], an index quadruple (equal and distinct indices) and Matsubara triples from a mixture "
         "forcing n1=n3, n2=n3, n1+n2=-1 and generic ones.  pomerol's chi_ijkl (on-demand evaluation of a stand-alone TwoParticleGF, "
         "frequency tables with clear=false and clear=true, default compute(), empty frequency list, and the TwoParticleGFContainer "
         "filled with an exchange partner so that the component is served as an alias) is compared with an independent "
         "evaluation of the time-ordered triple integral (6 orderings x divided differences of exp over the simplex, confluent nodes "
-        "for coinciding levels / vanishing bosonic frequency) and the tables with on-demand values.  Non-trivial: the component has a "
+        "for coinciding levels / vanishing bosonic frequency) and the tables with on-demand values.  Up to two further triples per case are "
+        "Matsubara frequencies shifted off the axis by real amounts (z_k = i w_n_k + mu_k: common shift, equal shift on a coinciding pair, "
+        "independent shifts); operator()(z1,z2,z3) there is compared with the same divided-difference sum continued to these z.  Non-trivial: the component has a "
         "non-zero chain and (a coinciding-frequency family is present, or >=3 distinct indices, or complex build).")
 ASSUMPTIONS = ["numpy; Hermite-Genocchi representation of the triple integral (pbt/oracle.py chi4)",
                "models whose reference spectrum has two levels 1e-10..1e-6 apart are discarded (pomerol's absolute 1e-8 resonance/merge thresholds)",
-               "tolerance |diff| <= 1e-8*(|ref| + beta^3 * sum_chains |M| (w1+w2+w3+w4)) -- no documented bound exists for chi; calibrated on the unchanged tree (max observed 1e-17 of that scale)"]
+               "tolerance |diff| <= min(1e-8*(|ref| + beta^3 * sum_chains |M| (w1+w2+w3+w4)), 4e-8*(1+beta)*sum of |individual Lehmann contributions|) + chi_floor -- no documented bound exists for chi; calibrated on the unchanged tree (max observed 1e-11 of the second scale)",
+               "for shifted frequencies the continuation substitutes e^{i w beta} = -1 before continuing (the library's convention); triples whose bosonic combination meets a pole difference of two different levels, or comes within 1e-9..1e-5 of one, are not judged (class shifted-ambiguous)"]
 CONFIG = {
     "quick": {"flavours": ["real", "complex"], "shards": 8, "examples": 900, "min_nontrivial": 200, "budget_s": 120},
     "thorough": {"flavours": ["real", "complex"], "shards": 16, "examples": 800, "min_nontrivial": 1500, "budget_s": 3300},
 }
-REQUIRED_CLASSES = {"quick": ["n1=n3", "n2=n3", "n1+n2=-1", "generic-triple", "purge", "empty-freq-list", "degenerate", "complex", ">=3-distinct-indices"],
-                    "thorough": ["n1=n3", "n2=n3", "n1+n2=-1", "generic-triple", "purge", "empty-freq-list", "degenerate", "complex", ">=3-distinct-indices", "resonant-chain"]}
+REQUIRED_CLASSES = {"quick": ["n1=n3", "n2=n3", "n1+n2=-1", "generic-triple", "purge", "empty-freq-list", "degenerate", "complex", ">=3-distinct-indices", "shifted-common", "shifted-pair13", "shifted-pair23", "wide-scale-parameters"],
+                    "thorough": ["n1=n3", "n2=n3", "n1+n2=-1", "generic-triple", "purge", "empty-freq-list", "degenerate", "complex", ">=3-distinct-indices", "resonant-chain", "shifted-common", "shifted-pair13", "shifted-pair23", "shifted-free", "wide-scale-parameters"]}
 TOL = 1e-8
 TOL_COND = 4e-8
 
@@ -40,8 +43,25 @@ def strategy_(draw, tier):
     triples = draw(st.lists(gen.triple_st(-6, 6), min_size=1, max_size=4, unique_by=tuple))
     cz = draw(st.lists(st.tuples(*[st.tuples(st.floats(-3, 3), st.floats(0.2, 4)) for _ in range(3)]), min_size=0, max_size=2))
     empty_table = draw(st.booleans())
+    # Matsubara frequencies shifted off the imaginary axis by real amounts, z_k = i w_{n_k} + mu_k (the analytic continuation offered by
+    # operator()(ComplexType, ComplexType, ComplexType)): common shift, the same shift on a coinciding pair, or independent shifts
+    sz = []
+    for _ in range(draw(st.integers(0, 2))):
+        n = list(draw(gen.triple_st(-4, 4)))
+        mu = draw(st.floats(0.05, 2.0).map(lambda x: round(x, 6) + 1.234567e-7)) * draw(st.sampled_from([1.0, -1.0]))
+        nu = draw(st.floats(0.05, 2.0).map(lambda x: round(x, 6) + 7.654321e-8))
+        kind = draw(st.sampled_from(["common", "pair13", "pair23", "free"]))
+        if kind == "common":
+            m = [mu, mu, mu]
+        elif kind == "pair13":
+            n[2] = n[0]; m = [mu, nu, mu]
+        elif kind == "pair23":
+            n[2] = n[1]; m = [nu, mu, mu]
+        else:
+            m = [mu, nu, -0.5 * mu + 0.25 * nu]
+        sz.append({"n": n, "mu": m, "kind": kind})
     return {"model": mdl, "comps": [list(c) for c in comps], "triples": triples,
-            "cz": [[list(z) for z in t] for t in cz], "empty_table": empty_table}
+            "cz": [[list(z) for z in t] for t in cz], "sz": sz, "empty_table": empty_table}
 
 
 def strategy(tier):
@@ -63,7 +83,9 @@ def execute(case, ctx):
     mdl = case["model"]
     beta = mdl["beta"]
     triples = [tuple(t) for t in case["triples"]]
-    cz = case["cz"]
+    sz = case.get("sz", [])
+    ncz0 = len(case["cz"])
+    cz = case["cz"] + [[[e["mu"][q], (2 * e["n"][q] + 1) * math.pi / beta] for q in range(3)] for e in sz]
     fa = freq_args(beta, triples, cz)
     mats = "mats %d %s" % (len(triples), " ".join("%d %d %d" % t for t in triples))
     czs = "cz %d %s" % (len(cz), " ".join("%r %r" % (float(z[0]), float(z[1])) for t in cz for z in t))
@@ -167,6 +189,19 @@ def execute(case, ctx):
         Smax = max([beta ** 3 * ref.chi4(i, j, k, l, *tr, return_scale=True)[1] for tr in triples] + [0.0])
         for t in range(len(cz)):
             v = odz[t]
+            if t >= ncz0 and np.isfinite(v):
+                # shifted Matsubara triple: the value itself is compared with the continued Lehmann sum of the reference
+                e = sz[t - ncz0]
+                r, sc = ref.chi4(i, j, k, l, e["n"][0], e["n"][1], e["n"][2], return_scale=True, shifts=tuple(e["mu"]))
+                if ref.last_ambiguous:
+                    classes.append("shifted-ambiguous")
+                else:
+                    tolz = min(TOL * (abs(r) + beta ** 3 * sc), TOL_COND * (1.0 + beta) * ref.last_cond) + chi_floor(beta, ref.N)
+                    if not abs(v - r) <= tolz:
+                        return fail("chi_%d%d%d%d at z_k = i w_n + mu, n=%s mu=%s: on demand %r, reference %r, |diff| %.3e > tol %.3e" % (
+                            i, j, k, l, e["n"], e["mu"], v, r, abs(v - r), tolz), "mismatch-ref-shifted", {"triple": e})
+                    if abs(r) > 1e3 * tolz:
+                        classes.append("shifted-" + e["kind"])
             if tX:
                 tt = len(triples) + t
                 if not (np.isfinite(v) and np.isfinite(tX[tt]) and np.isfinite(tY[tt])):
